@@ -713,6 +713,13 @@ def _norm1(e, ctx):
         return (k, tuple(flat))
     if k == 'sub':
         b = e[1]
+        # Enum["NAME"] with NAME = value.upper() for every member is Enum(value): Feature[x.upper()] == Feature(x)
+        s_ = e[2]
+        if s_[0] == 'call' and s_[1][0] == 'attr' and s_[1][2] == 'upper' and not s_[2] and not s_[3]:
+            ck = _cls_key(b, ctx)
+            tab = ctx.enums.get(ck) if ck and ck != '@methods' else None
+            if tab and all(isinstance(v_, str) and m_ == v_.upper() for m_, v_ in tab.items()):
+                return ('call', b, (s_[1][1],), ())
         if b[0] in ('tuple', 'list') and e[2][0] == 'const' and isinstance(e[2][1], int) and not any(x[0] == 'star' for x in b[1]) \
                 and -len(b[1]) <= e[2][1] < len(b[1]):
             return b[1][e[2][1]]                        # (a, b, c)[1] == b
